@@ -236,7 +236,7 @@ def run(ctx):
             verdict = "equal" if den_equal else "differ"
             detail = diff_facts(d0, d1) + (" | parser: %s" % (pv[1] or "")) if not den_equal else ""
         if verdict == "differ":
-            cls = classify(d0, d1, lst)
+            cls = classify(d0, d1, ok["parsed"])
             viol("C10/meaning-changed/%s" % cls, "Merge changed the meaning of %s -> %s: %s" % (
                 texts[:6], [r["text"] for r in m1["rules"]][:6], detail[:400]), {"list": texts})
     for key, lst in sorted(agg.items()):
@@ -257,7 +257,18 @@ def classify(d0, d1, lst):
     kinds = sorted({t[0] for t in lost | gained})
     k = "+".join(kinds)[:40]
     if kinds and all(kk in ("mount", "remount", "umount") for kk in kinds):
-        return k + "/options-set-changed"
+        # the recorded defect needs two rules of the same subject (qualifier, fstype, source, mount point) with different option lists
+        subj = {}
+        for x in lst:
+            f = x.get("fields") if isinstance(x.get("fields"), dict) else None
+            if f is None or x["kind"] not in kinds:
+                continue
+            key = (x["kind"], bool(f.get("Audit")), f.get("AccessType") or "", f.get("FsType") or "", f.get("Source") or "", f.get("MountPoint") or "")
+            subj.setdefault(key, set()).add(tuple(sorted(f.get("Options") or [])))
+        changed_subjects = {(t[0], t[1][0] == "audit", t[1][1], t[2], t[4], t[5]) for t in lost | gained}
+        if all(len(subj.get(cs, ())) > 1 for cs in changed_subjects):
+            return k + "/options-set-changed"
+        return k + "/options-changed-without-a-same-subject-rule"
     if any(t[-1] == TOP or (t[0] == "signal" and TOP in t) for t in lost):
         return k + "/all-narrowed-to-listed"
     if lost and not gained:
